@@ -313,7 +313,46 @@ CallV(f, e, s, st, deferred) ==
 (* statements *)
 IsSignal(o) == o \in {"brk", "cnt", "ret"}
 
-\* assignment targets: identifiers (nearest-or-here), module members (existing binding only)
+\* index targets  root[k1][k2]...[kn] = v  (root an identifier): the path is followed through lists and maps and the value is stored at its end;
+\* a list grows by one when the last index is its length.  Result [r |-> "ok" | "err" | "open", v |-> the updated container, grew].
+\* (Containers are values in this module; the families never alias the container they store into.)
+RECURSIVE PathRoot(_), PathIdx(_), StoreAt(_, _, _, _)
+PathRoot(e) == IF e.k = "idx" THEN PathRoot(e.e) ELSE e
+PathIdx(e) == IF e.k = "idx" THEN Append(PathIdx(e.e), e.i) ELSE <<>>
+SR(r, v, g) == [r |-> r, v |-> v, grew |-> g]
+StoreAt(v, ks, i, nv) ==
+  LET k == ks[i] IN
+  IF v.t = "list" THEN
+     IF k.t # "int" THEN SR("open", v, FALSE)
+     ELSE IF i = Len(ks) THEN
+          (IF k.i >= 0 /\ k.i < Len(v.l) THEN SR("ok", ListV([j \in 1..Len(v.l) |-> IF j = k.i + 1 THEN nv ELSE v.l[j]]), FALSE)
+           ELSE IF k.i = Len(v.l) THEN SR("ok", ListV(Append(v.l, nv)), TRUE)
+           ELSE SR("err", v, FALSE))
+     ELSE IF k.i < 0 \/ k.i >= Len(v.l) THEN SR("err", v, FALSE)
+     ELSE LET sub == StoreAt(v.l[k.i + 1], ks, i + 1, nv) IN
+          IF sub.r # "ok" THEN sub ELSE SR("ok", ListV([j \in 1..Len(v.l) |-> IF j = k.i + 1 THEN sub.v ELSE v.l[j]]), sub.grew)
+  ELSE IF v.t = "map" THEN
+     IF i = Len(ks) THEN SR("ok", MapV(MapPut(v.l, k, nv)), FALSE)
+     ELSE LET cur == MapGet(v.l, k, 1) IN
+          IF cur.t = "nil" THEN SR("err", v, FALSE)
+          ELSE LET sub == StoreAt(cur, ks, i + 1, nv) IN
+               IF sub.r # "ok" THEN sub ELSE SR("ok", MapV(MapPut(v.l, k, sub.v)), sub.grew)
+  ELSE IF v.t = "nil" THEN SR("err", v, FALSE)
+  ELSE SR("open", v, FALSE)
+
+\* following a path: the index expression of a step is evaluated, then (for every step but the last) the element is read -- an index
+\* that is out of range there is that operand's error, and the index expressions after it are not evaluated
+RECURSIVE Walk(_, _, _, _, _, _)
+Walk(cur, ixs, i, s, st, keys) ==
+  LET r == EvalE(ixs[i], s, st) IN
+  IF r.o # "norm" THEN [o |-> "stop", res |-> r, keys |-> keys]
+  ELSE IF i = Len(ixs) THEN [o |-> "done", res |-> r, keys |-> Append(keys, r.v)]
+  ELSE LET sub == Index(r.st, cur, r.v) IN
+       IF sub.o # "norm" THEN [o |-> "stop", res |-> sub, keys |-> keys]
+       ELSE Walk(sub.v, ixs, i + 1, s, sub.st, Append(keys, r.v))
+
+\* assignment targets: identifiers (nearest-or-here), module members (existing binding only), index paths rooted at an identifier
+\* (the root is read, then every index expression is evaluated exactly once, left to right, then the store happens)
 AssignAll(lhs, vals, i, n, s, st) ==
   IF i > n THEN Norm(st, NilV)
   ELSE LET t == lhs[i] IN
@@ -327,6 +366,23 @@ AssignAll(lhs, vals, i, n, s, st) ==
                  ELSE IF w = m.v.i THEN AssignAll(lhs, vals, i + 1, n, s, DefineIn(m.st, w, t.n, vals[i]))
                  ELSE Norm(MarkOpen(m.st), OpenV)
             ELSE Norm(MarkOpen(m.st), OpenV)
+       ELSE IF t.k = "idx" THEN
+            LET root == PathRoot(t) IN
+            IF root.k # "id" THEN Norm(MarkOpen(st), OpenV)
+            ELSE LET cur == Lookup(st, s, root.n) IN
+                 IF cur.t = "none" THEN Thr(st, RtErrV("undefined"))
+                 ELSE LET ixs == PathIdx(t)
+                          w == Walk(cur, ixs, 1, s, st, <<>>)
+                          ix == [o |-> w.res.o, st |-> w.res.st, v |-> ListV(w.keys)] IN
+                      IF w.o # "done" THEN w.res
+                      ELSE LET r == StoreAt(cur, ix.v.l, 1, vals[i]) IN
+                           IF r.r = "open" THEN Norm(MarkOpen(ix.st), OpenV)
+                           ELSE IF r.r = "err" THEN Thr(ix.st, RtErrV("store"))
+                           ELSE \* recorded deviation: a store that GROWS a list reached through a longer path is written back by evaluating the path's prefix again
+                                LET again == IF "LhsIndexReevaluated" \in Dev /\ r.grew /\ Len(ixs) >= 2
+                                             THEN EvalSeq(SubSeq(ixs, 1, Len(ixs) - 1), 1, s, ix.st, <<>>) ELSE ix IN
+                                IF again.o # "norm" THEN again
+                                ELSE AssignAll(lhs, vals, i + 1, n, s, Assign(again.st, s, root.n, r.v))
        ELSE Norm(MarkOpen(st), OpenV)
 
 DefineAll(names, vals, i, n, s, st) ==
